@@ -49,7 +49,7 @@ func (r *recorder) emit(e ev) {
 // generators
 // ---------------------------------------------------------------------------
 
-var keyPool = []string{"a", "b", "c", "d", "", "a/b", "m~n", "0", "1", "-", "~1", "é", "<k>", `"q"`, " ", "k ", "\\", "x y", "01"}
+var keyPool = []string{"a", "b", "c", "d", "", "a/b", "m~n", "0", "1", "-", "~1", "é", "<k>", `"q"`, " ", "k ", "\\", "x y", "01", "n\nl", "\x07", "t\tb"}
 var strPool = []string{"", "s", "x", "<", "&>", "a/b", " ", "\"\\", "\x01\t\n", "é€😀", "~0~1", "null", "0", "\u20a9\u2228", "\u2028\u2029"}
 var numPool = []string{"0", "1", "2", "-1", "1.0", "1e400", "-0", "12345678901234567890123", "1234567890123456789012345678901234567890123456789012345678901234567890", "0.1234567890123456789012345678901234567890123456789012345678901234567890e-5", "1E+2", "0.10", "1e-7", "100", "1.5", "-1.5e+3"}
 
@@ -504,6 +504,22 @@ func (r *recorder) execMerge(dt, pt []byte, doc, patch *jsonread.Value) {
 }
 
 func (r *recorder) createTrace() {
+	if r.rnd.Intn(5) == 0 {
+		// array roots: the elements are diffed pair by pair, each pair on its own
+		var as, bs []*jsonread.Value
+		for i, n := 0, 1+r.rnd.Intn(3); i < n; i++ {
+			x := r.genObject(2)
+			y := r.mutate(x, 2)
+			if y.T != "obj" {
+				y = r.genObject(1)
+			}
+			as, bs = append(as, x), append(bs, y)
+		}
+		a, b := jsonread.Arr(as...), jsonread.Arr(bs...)
+		sp := r.spelling()
+		r.execCreate(sp.RenderDoc(a), sp.RenderDoc(b), a, b)
+		return
+	}
 	a := r.genObject(4)
 	b := r.mutate(a, 4)
 	if b.T != "obj" {
